@@ -53,6 +53,14 @@ var configs = map[string]propCfg{
 		Thorough:   tierCfg{BudgetS: 900, Chunk: 120, MaxRuns: 5000000},
 		Assume:     assumeAll, Real: realAll, Stub: stubAll,
 	},
+	"C06": {
+		Level:      "exploration",
+		Rule:       "Seeded scenarios: 1-2 readers list a prefix (served at revision R), watch it from R+1 and list again at several later moments; 1-3 concurrent writers (successful and failing writes) and compactions at arbitrary revisions; memkv and Badger; sequencer yield points active. Oracle uses observables only: list(R) + delivered events with revision <= R' must equal list(R').",
+		NonTrivial: "at least one later list was compared after at least one event had been applied.",
+		Quick:      tierCfg{BudgetS: 40, Chunk: 150, MaxRuns: 200000},
+		Thorough:   tierCfg{BudgetS: 900, Chunk: 150, MaxRuns: 5000000},
+		Assume:     assumeAll, Real: realAll, Stub: stubAll,
+	},
 }
 
 // expectedProbes lists the reach probes whose absence is reported as a coverage gap.
@@ -61,5 +69,6 @@ var expectedProbes = map[string][]string{
 	"C02": {"concurrent-allocations"},
 	"C04": {"later-allocated-write-finished-first", "drift-back"},
 	"C05": {"registration-raced-with-write", "start-inside-history", "cache-wrapped", "watch-refused", "subscriber-dropped", "events-delivered"},
+	"C06": {"compared-with-events-applied", "compaction-overlapped-watch"},
 	"C03": {"read-at-historical-revision", "limit-cut-result", "compaction-before-reread"},
 }
